@@ -468,13 +468,16 @@ def run_property(chk, prop, laws, quick_gen=300, thorough_gen=4000, scns=None, n
             # the reference semantics of the whole run is asked from the driver once, after all runs
             # C09.history_matches_reference: where the reference semantics speaks about the run — a STANDARD execution of a
             # machine without TimeoutSeconds, not under a stalled broker, workers driven by a plan (an oracle exists), ended
-            want_hist = ("C09" in laws and pl is not None and scn.sm_type == "STANDARD" and kind != "stall"
-                         and "TimeoutSeconds" not in scn.machine and not scn.extra.get("machines")
-                         and fv.get("status") in ("SUCCEEDED", "FAILED") and not s.errors)
+            speaks = (pl is not None and kind != "stall" and "TimeoutSeconds" not in scn.machine
+                      and not scn.extra.get("machines") and fv.get("status") in ("SUCCEEDED", "FAILED") and not s.errors)
+            want_hist = "C09" in laws and speaks and scn.sm_type == "STANDARD"
+            # C11.notifications_match_reference: the same runs (EXPRESS ones too: they are notified like any other)
+            want_notes = "C11" in laws and speaks
             pending_runs.append({"probs": probs, "case": case, "hand": hand, "kind": kind,
                                  "hist": (list(getattr(mon, "final_history", []) or []), len(s.rpc_requests)) if want_hist else None,
+                                 "notes": [n["detail"] for n in mon.notes] if want_notes else None,
                                  "mline": (__import__("props.c01", fromlist=["x"]).model_line(scn.machine, scn.data, ea, pl.oracle())
-                                           if (pl is not None and (expect is not None or (skip_multi and not hand) or want_hist)) else None),
+                                           if (pl is not None and (expect is not None or (skip_multi and not hand) or want_hist or want_notes)) else None),
                                  "pre": expect.pre(scn, s, ea, pl, fv) if expect is not None else None, "scn": scn, "fv": fv})
             # Lean recognisers over what the engine did
             if scn.sm_type == "STANDARD":
@@ -508,10 +511,16 @@ def run_property(chk, prop, laws, quick_gen=300, thorough_gen=4000, scns=None, n
             chk.dist("skipped.multiple_failures(C06)")
             continue
         if pr["hist"] is not None and mo is not None:
-            mode, hp = enginerun.compare_history(pr["case"]["machine"], mo, pr["hist"][0], pr["hist"][1])
+            mode, hp, nev = enginerun.compare_history(pr["case"]["machine"], mo, pr["hist"][0], pr["hist"][1])
             chk.dist("history_vs_reference.%s.%s" % (pr["kind"], mode))
+            chk.dist("history_vs_reference.%s.events" % mode, nev)
             if hp:
                 probs = probs + [("C09.history_matches_reference", {"mode": mode, "differences": hp})]
+        if pr["notes"] is not None and mo is not None:
+            nmode, np_ = enginerun.compare_notifications(mo, pr["notes"], pr["case"]["input"])
+            chk.dist("notifications_vs_reference.%s.%s" % (pr["kind"], nmode))
+            if np_:
+                probs = probs + [("C11.notifications_match_reference", {"differences": np_})]
         seen = set()
         for law, detail in probs:
             if not any(law.startswith(l) for l in laws) or law in seen:
@@ -553,9 +562,12 @@ def run_property(chk, prop, laws, quick_gen=300, thorough_gen=4000, scns=None, n
                        "branch / item; Fail-vs-Wait-vs-Task siblings; nesting) under the canonical and %d seeded random schedules, "
                        "plus generated machines (canonical + 1 random schedule); the laws are evaluated after every step; "
                        "distinct = distinct (scenario, schedule); non-trivial = more than 2 steps; C09.history_matches_reference: "
-                       "for STANDARD executions that ended (no TimeoutSeconds, no stalled broker) the StateEntered / StateExited events "
-                       "and the number of task requests are compared with the log of Asl.run under every explored schedule — as "
-                       "sequences without fan-outs, as multisets with fan-outs none of which failed, exits-only inclusion otherwise"
+                       "for STANDARD executions that ended (no TimeoutSeconds, no stalled broker) the complete history (type, name, "
+                       "compared details, ids 1..n; …Aborted left out) and the number of task requests are compared with the history "
+                       "Asl.run predicts under every explored schedule — as sequences without fan-outs, as multisets with fan-outs "
+                       "none of which failed, inclusion of the Execution… / StateExited / LambdaFunctionSucceeded events otherwise; "
+                       "C11.notifications_match_reference: the status notifications (statuses in order, input / output / error "
+                       "payload) against the model's"
                        % n_rand)
 
 
